@@ -109,6 +109,32 @@ def h_wellformed_costs(run, cfg):
     run.check(True, 'wellformed-run-completes')
 
 
+def h_wellformed_zero_quote(run, cfg):
+    """a security quoted at exactly 0.0 before it starts trading (never held while at zero): selection algos that exclude non-positive prices keep the
+    run well-formed"""
+    B = bt()
+    A = B.algos
+    dts = dates(5)
+    P = {'a': [100.0, 104.0, 98.0, 101.0, 99.0], 'b': [0.0, 0.0, 40.0, 42.0, 41.0], 'c': [10.0, 0.0, 0.0, 12.0, 11.0]}
+    cols = cfg['cols']
+    data = frame(run, dts, cols, lambda i, c: P[c][i])
+    sel = {'hasdata': A.SelectHasData(lookback=pd.DateOffset(days=1), min_count=1), 'all': A.SelectAll(), 'momentum': A.SelectMomentum(2, lookback=pd.DateOffset(days=1))}[cfg['select']]
+    pre = [A.SelectAll()] if cfg['select'] == 'momentum' else []
+    s = B.Strategy('s', [A.RunDaily()] + pre + [sel, A.WeighEqually(), A.Rebalance()])
+    t = B.Backtest(s, data, initial_capital=run.real('cap', 10 ** 4, 10 ** 7), integer_positions=False)
+    try:
+        t.run()
+    except Exception as e:
+        run.fail('wellformed-run-completes', '%s on %s: %r' % (cfg['select'], cols, e))
+    st = t.strategy
+    for nm in ('_values', '_prices', '_cash'):
+        ser = getattr(st, nm)
+        for d in ser.index:
+            if d <= st.now and not finite(ser[d]):
+                run.fail('recorded-numbers-finite', '%s@%s = %r' % (nm, d, ser[d]))
+    run.check(True, 'wellformed-run-completes')
+
+
 def expect_raises(run, label, fn, detail=''):
     try:
         fn()
@@ -146,6 +172,12 @@ def h_illformed(run, cfg):
     elif kind == 'duplicate-columns':
         data = pd.DataFrame([[1.0, 2.0, 3.0]] * 4, index=dts, columns=['a', 'b', 'a'])
         expect_raises(run, 'duplicate-tickers-rejected', lambda: B.Backtest(B.Strategy('s', []), data))
+        # ... and the same ticker declared twice among a strategy's children, in any mix of names and node objects
+        for label, mk in (('two names', lambda: ['a', 'b', 'a']), ('node then name', lambda: [C.Security('a'), 'b', 'a']),
+                          ('two nodes', lambda: [C.Security('a'), C.Security('a')])):
+            # (a name followed by a node object of that name is NOT a duplicate: bt documents it as supplying the implementation of a child declared
+            #  earlier - tests/test_core.py::test_node_tree3)
+            expect_raises(run, 'duplicate-children-rejected', lambda mk=mk: B.Strategy('s', [], mk()), label)
     elif kind == 'zero-base':
         data = frame(run, dts, ['a'], lambda i, c: 100.0)
         s = C.StrategyBase('s', [C.SecurityBase('a')])
@@ -183,7 +215,7 @@ def h_illformed(run, cfg):
         raise ValueError(kind)
 
 
-HARNESSES = {'wellformed': h_wellformed, 'wellformed_costs': h_wellformed_costs, 'illformed': h_illformed}
+HARNESSES = {'wellformed_zero_quote': h_wellformed_zero_quote, 'wellformed': h_wellformed, 'wellformed_costs': h_wellformed_costs, 'illformed': h_illformed}
 WITNESS_CAP = {'quick': 200, 'thorough': 400}
 COMPILED_REPLAY = {'quick': True, 'thorough': True}
 ILL = ['trade-at-nan-or-zero-price', 'nan-price-on-open-position', 'nan-coupon-on-open-position', 'duplicate-columns', 'zero-base',
@@ -214,6 +246,11 @@ def plan(tier):
             for spread in ((0,) if quick else (0, 1)):
                 for w in ([0.625, 0.25], [0.75, -0.25]):
                     tasks.append(dict(harness='wellformed_costs', cfg=dict(mults=mults, fee=fee, spread=spread, w=w), opts=copts))
+    for cols in (['a', 'b'], ['a', 'b', 'c']):
+        for sel in ('hasdata', 'all'):
+            if sel == 'all' and 'c' in cols:
+                continue          # c is held when its quote drops to zero: SelectAll would keep trading it (ill-formed: zero price on a held name)
+            tasks.append(dict(harness='wellformed_zero_quote', cfg=dict(cols=cols, select=sel), opts=opts))
     for k in ILL:
         tasks.append(dict(harness='illformed', cfg=dict(kind=k), opts=opts))
     return tasks
